@@ -69,7 +69,7 @@ def jobs(tier):
                     out.append({"program": prog(H if nw == 2 else 3, base + [select("s", ws, n, kind), req("a", "s"), req("b", "w1")]),
                                 "families": fam, "family": "select"})
                 # both tasks select
-                if nw == 2 or tier == "thorough":
+                if nw == 2 or tier in ("thorough", "deep"):
                     out.append({"program": prog(3, [fixed("a", 2), fixed("b", 2)] + [worker(w) for w in ws] +
                                                 [select("s", ws, n, kind), select("r", ws, 1, "exact"), req("a", "s"), req("b", "r")]),
                                 "families": fam, "family": "select2"})
@@ -99,9 +99,9 @@ def jobs(tier):
     for size, p_, wa in itertools.product((2, 3), (1, 2, 3), (2, 5)):
         out.append({"program": prog(3, [var("a", work_amount=wa, max_duration=3), cumul("c1", size, productivity=p_), req("a", "c1")]), "families": fam, "family": "work-cumulative"})
     # 7. work amounts and productivities
-    prods = (0, 1, 2, 3) if tier == "thorough" else (0, 1, 2)
+    prods = (0, 1, 2, 3) if tier in ("thorough", "deep") else (0, 1, 2)
     for p1, p2 in itertools.product(prods, prods):
-        for wa in ((1, 4, 6) if tier == "thorough" else (1, 4)):
+        for wa in ((1, 4, 6) if tier in ("thorough", "deep") else (1, 4)):
             t = var("a", work_amount=wa)
             out.append({"program": prog(H, [t, worker("w1", productivity=p1), worker("w2", productivity=p2), req("a", "w1"), req("a", "w2")]),
                         "families": fam, "family": "work"})
@@ -126,10 +126,13 @@ def jobs(tier):
 
 def main(tier):
     from . import alpha
-    js = jobs(tier)
-    for (lab, kind, p_) in alpha.interaction_programs(tier):
+    lvl = common.level("C02", tier)
+    js = jobs(lvl)
+    for (lab, kind, p_) in alpha.interaction_programs(lvl):
         if kind in ("resource0", "resource"):
             js.append({"program": p_, "families": ["task", "resource"], "family": "interaction:" + lab.split("/")[1]})
+    if lvl == "deep":
+        js = common.widen(js, by=(1, 2))
     for j in js:
         # the busy bounds of every assignment are explored too: the interval each worker is held
         # must be the one the requirement implies (static, delayed, selected) or lie inside the task (dynamic)
